@@ -17,6 +17,7 @@
 #include <syslog.h>
 #include <unistd.h>
 
+#include "generated/cjet_config.h"
 #include "simk.h"
 
 /* ------------------------------------------------------------------ state */
@@ -451,6 +452,34 @@ int sim_open_fds(void)
 		}
 	}
 	return n;
+}
+
+int sim_open_conn_cids(int *out, int max)
+{
+	int n = 0;
+	for (int fd = FD_BASE; fd < next_fd; fd++) {
+		if (fds[fd].open && fds[fd].kind == FD_CONN && n < max) {
+			out[n++] = fds[fd].cid;
+		}
+	}
+	return n;
+}
+
+void sim_open_fd_summary(char *buf, size_t len)
+{
+	int counts[8] = {0};
+	for (int fd = FD_BASE; fd < next_fd; fd++) {
+		if (fds[fd].open) {
+			counts[fds[fd].kind]++;
+		}
+	}
+	buf[0] = 0;
+	for (int k = 1; k < 7; k++) {
+		if (counts[k]) {
+			size_t l = strlen(buf);
+			snprintf(buf + l, len - l, "%s%s", l ? "+" : "", kind_name[k]);
+		}
+	}
 }
 
 int sim_hygiene_count(void)
@@ -1309,9 +1338,24 @@ void sim_set_fill(uint8_t b)
 	fill_byte = b;
 }
 
+static size_t heap_peak;
+size_t sim_heap_accounted_peak(void);
+size_t sim_heap_accounted_peak(void)
+{
+	return heap_peak;
+}
+
 static bool heap_should_fail(void *ra)
 {
 	heap_allocs++;
+	/* the daemon's own accounting is sampled at every allocation: it must never exceed the configured cap */
+	size_t acc = cjet_get_alloc_size();
+	if (acc > heap_peak) {
+		heap_peak = acc;
+		if (acc > (size_t)CONFIG_MAX_HEAPSIZE_IN_KBYTE * 1024) {
+			hygiene("heap-cap-exceeded", "accounted heap %zu exceeds the configured cap of %zu KiB", acc, (size_t)CONFIG_MAX_HEAPSIZE_IN_KBYTE);
+		}
+	}
 	if (heap_fail_nth > 0) {
 		if (--heap_fail_nth == 0) {
 			heap_fail_ra = ra;
